@@ -34,4 +34,11 @@ def obligations(tier, seed=0):
         obs.append(('checks.fam_elem:wrap_kw', dict(name='sqrt', kw=dict(dps=5), arg=arg)))
         obs.append(('checks.fam_elem:wrap_kw', dict(name='ln', kw=dict(prec=10, rounding='f'), arg=arg)))
         obs.append(('checks.fam_elem:wrap_kw', dict(name='acos', kw={}, arg=arg, ctxprec=30)))
+    # complex elementary wrappers of libmpc with their inner kernels stubbed: the value handed back has at most prec bits
+    for fn in ('mpc_exp', 'mpc_log', 'mpc_cos', 'mpc_sin', 'mpc_cosh', 'mpc_sinh', 'mpc_tanh', 'mpc_atan', 'mpc_acos', 'mpc_asin', 'mpc_asinh',
+               'mpc_acosh', 'mpc_atanh', 'mpc_cos_pi', 'mpc_sin_pi', 'mpc_expj', 'mpc_expjpi', 'mpc_arg', 'mpc_abs', 'mpc_reciprocal', 'mpc_sqrt', 'mpc_cbrt'):
+        obs.append(('checks.fam_elem:cwrap_bits', dict(fn=fn, prec=10, rnd='n')))
+        if fn not in ('mpc_atan', 'mpc_atanh'):        # these two take ~1 min each (symbolic additions at prec+15 bits)
+            obs.append(('checks.fam_elem:cwrap_bits', dict(fn=fn, prec=10, rnd='f')))
+            obs.append(('checks.fam_elem:cwrap_bits', dict(fn=fn, prec=3, rnd='u', rexp=4, iexp=-6)))
     return obs
